@@ -318,16 +318,9 @@ func (tp *TableParser) parseCellParagraph(p paragraphXML) parsedParagraph {
 	// Extract text
 	var textParts []string
 
-	// Direct text content
+	// Complete text in document order (character data and inline elements)
 	if p.Text != "" {
 		textParts = append(textParts, p.Text)
-	}
-
-	// Text from spans
-	for _, span := range p.Spans {
-		if span.Text != "" {
-			textParts = append(textParts, span.Text)
-		}
 	}
 
 	parsed.Text = strings.Join(textParts, "")
